@@ -51,6 +51,14 @@ func WarpTargetFullType(targetType string) (string, string) {
 		}
 	}
 
+	// a type of the current package hides the types of that name in other packages
+	for _, clz := range clzs {
+		if clz == currentPkg+"."+pureTargetType {
+			callType = "same package"
+			return clz, callType
+		}
+	}
+
 	for _, clz := range clzs {
 		if strings.HasSuffix(clz, "."+pureTargetType) {
 			callType = "same package"
